@@ -49,7 +49,7 @@ def c_csr_sram(depth, busw=32, memw=None, read_only=False, init=None, paging=0x8
     V = h.v
     ap = paging // 4; pb = ap.bit_length() - 1; assert 1 << pb == ap
     csrw = (memw + busw - 1) // busw; wb = csrw.bit_length() - 1; assert 1 << wb == csrw
-    AWm = (depth - 1).bit_length(); assert 1 << AWm == depth and AWm >= 1
+    AWm = max(1, (depth - 1).bit_length())
     PBITS = len(page.storage) if page is not None else 0
     adr = V(bus.adr); idx = z3.Extract(pb - 1, 0, adr); bank = z3.Extract(13, pb, adr)
     we = b(V(bus.we))
@@ -57,18 +57,27 @@ def c_csr_sram(depth, busw=32, memw=None, read_only=False, init=None, paging=0x8
     sel_p = z3.And(bank == K(address + 1, 14 - pb), idx == K(0, pb)) if page is not None else z3.BoolVal(False)     # the page register is addressed
     pv = V(page.storage) if page is not None else None
     # ---- address spec -------------------------------------------------------------------------------------------------------
+    # a page holds 2**WOFF memory words; word (page register * 2**WOFF + offset // csrw) is addressed.  Every word of the memory must be
+    # reachable: the page register (if any) together with the window offset must span the memory's address range.
     sub = z3.Extract(wb - 1, 0, idx) if wb else None                              # sub-word of the memory word (big-endian)
-    lowbits = AWm - PBITS
-    assert 1 <= lowbits + wb <= pb or (lowbits == 0)
-    wlow = z3.Extract(wb + lowbits - 1, wb, idx) if lowbits else None
-    maddr = cat(pv, wlow)                                                         # memory word addressed by (page register, idx)
-    assert maddr.size() == AWm
+    WOFF = pb - wb
+    FNS = (["litex.soc.interconnect.csr_bus.CSRBankArray.scan/get_buses"] if via_array else []) + ["litex.soc.interconnect.csr_bus.SRAM.__init__/get_csrs", "litex.soc.interconnect.csr_bus.Interconnect.__init__", "litex.gen.genlib.misc.chooser"]
+    if PBITS + WOFF < AWm:
+        return dict(results=[res("ens.window.every-word-reachable", "ensures", VIOLATED, 0, "executed (elaboration)", replayed=True,
+                                 witness=dict(memory=f"{depth} x {memw}", bus=busw, paging=hex(paging), words_per_page=1 << WOFF, page_register_bits=PBITS,
+                                              what=f"page register ({PBITS} bits) and window offset ({WOFF} bits) address {1 << (PBITS + WOFF)} words: word {(1 << (PBITS + WOFF))} of the memory cannot be selected"))],
+                    functions=FNS, samples=[])
+    if page is None: maddr = z3.Extract(wb + AWm - 1, wb, idx)                    # a memory smaller than the page repeats inside it
+    else: maddr = cat(pv, z3.Extract(pb - 1, wb, idx)) if WOFF else pv            # memory word addressed by (page register, offset)
+    MW = maddr.size()
+    inr = (lambda a: ult(a, depth)) if depth < (1 << MW) else (lambda a: z3.BoolVal(True))      # depth not a power of two: addresses beyond the last word are not constrained
     cells = h.ts.mems[d.mem]
     def memrd(a):
         r = V(cells[depth - 1])
-        for j in reversed(range(depth - 1)): r = z3.If(a == K(j, AWm), V(cells[j]), r)
+        for j in reversed(range(depth - 1)): r = z3.If(a == K(j, a.size()), V(cells[j]), r)
         return r
-    gw = h.const("gw", AWm)
+    gw = h.const("gw", MW)
+    if depth < (1 << MW): h.assume(ult(gw, depth), "the tracked word gw is a word of the memory")
     EW = csrw * busw
     def chunk(word, s):
         """bus word s (big-endian: 0 = most significant) of a memory word, zero-extended to csrw bus words"""
@@ -98,7 +107,8 @@ def c_csr_sram(depth, busw=32, memw=None, read_only=False, init=None, paging=0x8
         h.ensure("ens.ro", nxt == cur)                                            # read-only window: bus writes have no effect
     else:
         h.ensure("ens.write", z3.Implies(hit, nxt == neww))                       # the addressed word takes the written value ...
-        h.ensure("ens.frame", z3.Implies(z3.Not(hit), nxt == cur))               # ... and no other access (other word, other bank, read, staging write) changes a word
+        oob_write = z3.And(sel_s, we, z3.Not(inr(maddr)))      # beyond the last word of a memory whose depth is not a power of two: not an addressed word (Verilog: no effect; the simulator's MemoryToArray clamps to the last word - C01's memory note)
+        h.ensure("ens.frame", z3.Implies(z3.And(z3.Not(hit), z3.Not(oob_write)), nxt == cur))               # ... and no other access (other word, other bank, read, staging write) changes a word
     if page is not None:
         h.ensure("ens.page.write", z3.Implies(z3.And(sel_p, we), h.n(page.storage) == z3.Extract(PBITS - 1, 0, V(bus.dat_w))))
         h.ensure("ens.page.frame", z3.Implies(z3.Not(z3.And(sel_p, we)), h.n(page.storage) == pv))   # accesses to the window never move the page
@@ -106,7 +116,7 @@ def c_csr_sram(depth, busw=32, memw=None, read_only=False, init=None, paging=0x8
     rd_word = chunk(memrd(maddr), sub)
     rd_word = z3.Extract(busw - 1, 0, rd_word) if rd_word.size() > busw else zx(rd_word, busw)
     spec_rd = z3.If(sel_s, rd_word, z3.If(sel_p, zx(pv, busw), K(0, busw)) if page is not None else K(0, busw))
-    h.ensure("ens.read", z3.Implies(z3.Not(we), h.n(bus.dat_r) == spec_rd))
+    h.ensure("ens.read", z3.Implies(z3.And(z3.Not(we), z3.Or(z3.Not(sel_s), inr(maddr))), h.n(bus.dat_r) == spec_rd))
     h.ensure("ens.zero", z3.Implies(z3.Not(z3.Or(sel_s, sel_p)), h.n(bus.dat_r) == K(0, busw)))    # a window (and page bank) that is not addressed drives zero
     # a read in the cycle after a write sees the written word (the write is complete in one cycle)
     if not read_only:
@@ -120,7 +130,7 @@ def c_csr_sram(depth, busw=32, memw=None, read_only=False, init=None, paging=0x8
     h.cover("cover.read-nonzero", z3.And(b(p_rd), V(bus.dat_r) != K(0, busw)), depth=2 + csrw)
     if not read_only: h.cover("cover.write", hit, depth=csrw)
     if page is not None: h.cover("cover.paged-read", z3.And(b(p_rd), V(bus.dat_r) != K(0, busw), pv != K(0, PBITS)), depth=4 + csrw)
-    h.functions = (["litex.soc.interconnect.csr_bus.CSRBankArray.scan/get_buses"] if via_array else []) + ["litex.soc.interconnect.csr_bus.SRAM.__init__/get_csrs", "litex.soc.interconnect.csr_bus.Interconnect.__init__", "litex.gen.genlib.misc.chooser"]
+    h.functions = FNS
     h.cosim_cycles = 16
     return h
 
@@ -130,6 +140,8 @@ def cases(tier):
           Case("csr.SRAM(8x32,bus=32,ro,init)", c_csr_sram, 8, 32, None, True, I8),
           Case("csr.SRAM(32x32,bus=32,paged:4x8)", c_csr_sram, 32, 32, None, False, None, 0x20),
           Case("csr.SRAM(16x8,bus=8,paged:2x8,ro,init)", c_csr_sram, 16, 8, None, True, [(37 * i + 1) & 0xff for i in range(16)], 0x20, 9),
+          Case("csr.SRAM(20x32,bus=32,paged:3x8 - last page partly filled)", c_csr_sram, 20, 32, None, False, None, 0x20),
+          Case("csr.SRAM(12x32,bus=32,paged:2x8 - last page half filled)", c_csr_sram, 12, 32, None, False, None, 0x20, 5),
           Case("csr.SRAM(8x32,bus=8,wide)", c_csr_sram, 8, 8, 32),
           Case("csr.SRAM(16x12,bus=8,wide,paged:4x8)", c_csr_sram, 16, 8, 12, False, None, 0x20, 3),
           Case("csr.SRAM(8x5,bus=8,narrow)", c_csr_sram, 8, 8, 5),
@@ -141,6 +153,7 @@ def cases(tier):
         cs += [Case("csr.SRAM(64x32,bus=32,paged:4x16)", c_csr_sram, 64, 32, None, False, None, 0x40), Case("csr.SRAM(16x64,bus=8,wide)", c_csr_sram, 16, 8, 64)]
     return cs
 
-ASSUMPTIONS = ["csr_bus.SRAM: a window smaller than its CSR page repeats inside the page (the addressed word is the offset modulo the memory depth)",
+ASSUMPTIONS = ["csr_bus.SRAM on a memory whose depth is not a power of two: window accesses beyond the last word (page/offset combinations past the end) are outside the contract",
+               "csr_bus.SRAM: a window smaller than its CSR page repeats inside the page (the addressed word is the offset modulo the memory depth)",
                "csr_bus.SRAM with memory words wider than the bus: multi-word atomic-write semantics per memory word (upper sub-words staged, the least significant sub-word commits), as for CSRStorage(atomic_write=True)",
                "csr_bus.SRAM: the page register is mapped by a CSRBank at the next bank address, as CSRBankArray.scan does (get_csrs)"]
